@@ -2,6 +2,12 @@
 """Writes seeded/<ID>-<X>/meta.json from the sub-agent's agent_meta.json, my notes below and seeded/matrix.tsv."""
 import json,os,glob
 NOTES={
+ "C09-K":"ninth (mini) round; caught at once (labelled callback after a positional argument)",
+ "C10-K":"ninth (mini) round; caught at once (ill-typed self-application; the worker aborts, the case is confirmed alone)",
+ "C16-K":"ninth (mini) round; same idea as C14-G (ranges of one notification converted up front), produced independently; caught at once (multi-change notifications in the races)",
+ "C01-K":"ninth (mini) round; more than ~510 consecutive prefix operators exhaust the parser's fuel: C01 leaves nesting beyond 64 to C02 by design, and C02 reports it (prefix-operator ladders)",
+ "C18-K":"ninth (mini) round; first missed (generated functions carried no attributes); caught since `@external(..)` / `@target(..)` lines are emitted in front of some definitions",
+
  "C02-J":"eighth (mini) round; caught at once (token-class enumeration: `..` followed by a discard name in pattern context)",
  "C08-J":"eighth (mini) round; caught at once (rename is sent for every occurrence, in dependency files too, and compared with prepare-rename)",
  "C14-J":"eighth (mini) round; caught at once (all ordered boundary pairs: ranges ending right behind a line break)",
@@ -92,7 +98,7 @@ if os.path.exists(p):
         f=line.rstrip('\n').split('\t')
         if len(f)<3: matrix[f[0]]={"error":f[1] if len(f)>1 else ""}; continue
         matrix[f[0]]={kv.split('=')[0]:int(kv.split('=')[1]) for kv in f[1:]}
-for p2 in ('/verif/seeded/round2.tsv','/verif/seeded/round3.tsv','/verif/seeded/round4.tsv','/verif/seeded/round5.tsv','/verif/seeded/round6.tsv','/verif/seeded/round7.tsv','/verif/seeded/round8.tsv'):
+for p2 in ('/verif/seeded/round2.tsv','/verif/seeded/round3.tsv','/verif/seeded/round4.tsv','/verif/seeded/round5.tsv','/verif/seeded/round6.tsv','/verif/seeded/round7.tsv','/verif/seeded/round8.tsv','/verif/seeded/round9.tsv'):
   if os.path.exists(p2):
     for line in open(p2):
         f=line.rstrip('\n').split('\t')
